@@ -484,8 +484,11 @@ def run_check(mod, tier, seed, replay=None):
     ev = {'property_id': pid, 'tier': tier, 'seed': seed, 'level': level, 'coverage': cov,
           'assumptions': list(getattr(mod, 'ASSUMPTIONS', [])), 'wall_s': round(time.time() - t0, 2), 'violations': len(violations)}
     if not replay:
-        os.makedirs(os.path.join(ROOT, 'evidence'), exist_ok=True)
-        with open(os.path.join(ROOT, 'evidence', pid + '.json'), 'w') as f:
+        # evidence/ describes /repo itself; a run against another tree (VERIF_REPO=<mutant>) must not overwrite it
+        evdir = os.environ.get('VERIF_EVIDENCE_DIR') or (os.path.join(ROOT, 'evidence') if os.path.realpath(REPO) == '/repo'
+                                                          else os.path.join(ROOT, '.build', 'evidence-other-tree'))
+        os.makedirs(evdir, exist_ok=True)
+        with open(os.path.join(evdir, pid + '.json'), 'w') as f:
             json.dump(ev, f, indent=1, sort_keys=True)
     print('%s tier=%s seed=%d cases=%d impl~model=%d impl~oracle=%d theorems=%d/%d known=%s violations=%d wall=%.1fs' % (
         pid, tier, seed, len(cases), n_cmp_model, n_cmp_oracle, discharged, obligations, {k: len(v) for k, v in known_hit.items()}, len(violations), time.time() - t0))
